@@ -155,7 +155,7 @@ func TestC07Canonical(t *testing.T) {
 	} else if kit.ReplayMode() {
 		t.Skip()
 	}
-	kit.SetChecks(60, 600)
+	kit.SetChecks(60, 300)
 	rapid.Check(t, func(rt *rapid.T) {
 		run(rt, c07aCase{Spec: genC07Spec(rt), CutSel: rapid.IntRange(0, 1000).Draw(rt, "cutSel")})
 	})
@@ -388,7 +388,7 @@ func TestC07ConfigMismatch(t *testing.T) {
 	} else if kit.ReplayMode() {
 		t.Skip()
 	}
-	kit.SetChecks(8, 60)
+	kit.SetChecks(8, 30)
 	rapid.Check(t, func(rt *rapid.T) {
 		run(rt, c07bCase{Spec: genC07Spec(rt), CutSel: rapid.IntRange(0, 1000).Draw(rt, "cutSel")})
 	})
@@ -784,7 +784,7 @@ func TestC07Crafted(t *testing.T) {
 	} else if kit.ReplayMode() {
 		t.Skip()
 	}
-	kit.SetChecks(150, 1500)
+	kit.SetChecks(150, 800)
 	rapid.Check(t, func(rt *rapid.T) {
 		c := c07cCase{Spec: genC07Spec(rt), CutSel: rapid.IntRange(0, 1000).Draw(rt, "cutSel"),
 			Edit: rapid.SampledFrom(c07Edits).Draw(rt, "edit"), Target: rapid.IntRange(0, 40).Draw(rt, "target"), Arg: rapid.IntRange(0, 7).Draw(rt, "arg")}
@@ -924,7 +924,7 @@ func TestC07Bytes(t *testing.T) {
 	} else if kit.ReplayMode() {
 		t.Skip()
 	}
-	kit.SetChecks(200, 2000)
+	kit.SetChecks(200, 1000)
 	rapid.Check(t, func(rt *rapid.T) {
 		c := c07dCase{Spec: genC07Spec(rt), CutSel: rapid.IntRange(0, 1000).Draw(rt, "cutSel"),
 			Layer: rapid.SampledFrom([]string{"file", "tar", "payload", "payload"}).Draw(rt, "layer"), Target: rapid.IntRange(0, 40).Draw(rt, "target")}
